@@ -6168,9 +6168,8 @@ let rec decode fuel c b old flags =
   | S fuel' ->
     (match c with
      | CBool ->
-       if Z.eqb (len b) Z0
-       then dret Z0 (Some Proto_ErrUnexpectedEOF) old
-       else dret (Zpos XH) None (VBool (negb (Z.eqb (at_ b Z0) Z0)))
+       let (p, err) = proto_decodeVarint b in
+       let (v, n0) = p in dret n0 err (VBool (negb (Z.eqb v Z0)))
      | CInt ->
        let (p, err) = proto_decodeVarint b in
        let (v, n0) = p in dret n0 err (VInt (proto_flags_int64 flags v))
